@@ -15,11 +15,13 @@ import (
 	"fmt"
 	"os"
 	"path/filepath"
+	"regexp"
 	"sort"
 	"strings"
 	"time"
 
 	"github.com/google/pprof/internal/graph"
+	"github.com/google/pprof/internal/plugin"
 	"github.com/google/pprof/internal/zzverif/vdrv"
 	"github.com/google/pprof/internal/zzverif/vlib"
 	"github.com/google/pprof/profile"
@@ -233,6 +235,94 @@ func tieProfiles(r *vlib.Rand) []vlib.AProf {
 	return out
 }
 
+// ---- disassembly reports over a scripted object file with symbols that share a name and tie in weight
+
+type fakeObj struct{}
+type fakeFile struct{ name string }
+
+var fakeSyms = []*plugin.Sym{
+	{Name: []string{"dup"}, File: "bin1", Start: 0x1100, End: 0x110f},
+	{Name: []string{"dup"}, File: "bin1", Start: 0x1200, End: 0x120f},
+	{Name: []string{"dup"}, File: "bin1", Start: 0x1300, End: 0x130f},
+	{Name: []string{"other"}, File: "bin1", Start: 0x1400, End: 0x140f},
+	{Name: []string{"again", "alias"}, File: "bin1", Start: 0x1500, End: 0x150f},
+}
+
+func (fakeObj) Open(file string, start, limit, offset uint64, rel string) (plugin.ObjFile, error) {
+	return fakeFile{file}, nil
+}
+func (fakeObj) Disasm(file string, start, end uint64, intel bool) ([]plugin.Inst, error) {
+	var out []plugin.Inst
+	for a := start; a <= end; a += 4 {
+		out = append(out, plugin.Inst{Addr: a, Text: fmt.Sprintf("op %x", a&0xf), Function: "fn", File: "src.c", Line: int(a & 0xff)})
+	}
+	return out, nil
+}
+func (f fakeFile) Name() string                        { return f.name }
+func (f fakeFile) ObjAddr(addr uint64) (uint64, error) { return addr, nil }
+func (f fakeFile) BuildID() string                     { return "" }
+func (f fakeFile) Close() error                        { return nil }
+func (f fakeFile) SourceLine(addr uint64) ([]plugin.Frame, error) {
+	return []plugin.Frame{{Func: "fn", File: "src.c", Line: int(addr & 0xff)}}, nil
+}
+func (f fakeFile) Symbols(r *regexp.Regexp, addr uint64) ([]*plugin.Sym, error) {
+	var out []*plugin.Sym
+	for _, s := range fakeSyms {
+		if (r == nil || r.MatchString(s.Name[0])) && (addr == 0 || (addr >= s.Start && addr <= s.End)) {
+			c := *s
+			out = append(out, &c)
+		}
+	}
+	return out, nil
+}
+
+func disasmPart(reps int) {
+	m := &profile.Mapping{ID: 1, Start: 0x1000, Limit: 0x2000, File: "bin1"}
+	p := &profile.Profile{SampleType: []*profile.ValueType{{Type: "samples", Unit: "count"}}, PeriodType: &profile.ValueType{Type: "cpu", Unit: "ns"}, Period: 1,
+		Mapping: []*profile.Mapping{m}}
+	for i, a := range []uint64{0x1104, 0x1204, 0x1304, 0x1404, 0x1504, 0x1208} {
+		l := &profile.Location{ID: uint64(i + 1), Mapping: m, Address: a}
+		name := "dup"
+		switch a >> 8 {
+		case 0x14:
+			name = "other"
+		case 0x15:
+			name = "again"
+		}
+		fn := &profile.Function{ID: uint64(i + 1), Name: name, SystemName: name, Filename: "src.c"}
+		p.Function = append(p.Function, fn)
+		l.Line = []profile.Line{{Function: fn, Line: int64(a & 0xff)}}
+		p.Location = append(p.Location, l)
+		v := int64(5)
+		if i == 5 {
+			v = 0 // keeps the flat sums of the same-named symbols equal
+		}
+		p.Sample = append(p.Sample, &profile.Sample{Location: []*profile.Location{l}, Value: []int64{v}})
+	}
+	for _, f := range [][]string{{"-disasm=."}, {"-disasm=dup"}, {"-disasm=^(dup|again)$"}} {
+		var first []byte
+		for k := 0; k < reps*2; k++ {
+			args := append(append([]string{"-flat"}, f...), "-output=out", "src")
+			res := vdrv.Run(vdrv.Opts{Args: args, Obj: fakeObj{}, Fetch: func(string) (*profile.Profile, error) { return p.Copy(), nil }})
+			if res.Panic != nil {
+				run.Violate("pipeline", "pipeline-error:"+f[0], fmt.Sprint(res.Panic), nil, nil)
+				break
+			}
+			if res.Err != nil {
+				run.Note(fmt.Sprintf("%v: %v", f, res.Err))
+				break
+			}
+			run.Count("disasm" + f[0])
+			if first == nil {
+				first = res.Files["out"]
+			} else if !bytes.Equal(first, res.Files["out"]) {
+				run.Violate("pipeline", "nondeterministic-output:"+strings.TrimLeft(f[0], "-"), fmt.Sprintf("run %d of %v differs from run 0:\n%s\nvs\n%s", k, f, clip(first), clip(res.Files["out"])), nil, nil)
+				break
+			}
+		}
+	}
+}
+
 var formats = [][]string{{"-top"}, {"-top", "-cum"}, {"-tree"}, {"-peek=."}, {"-dot"}, {"-dot", "-call_tree"}, {"-callgrind"}, {"-tags"}, {"-traces"}, {"-raw"}, {"-proto"}, {"-topproto"},
 	{"-top", "-lines"}, {"-dot", "-files"}, {"-tree", "-addresses"}}
 
@@ -275,6 +365,7 @@ func pipeline(reps int, dump string) {
 			}
 		}
 	}
+	disasmPart(reps)
 	// fetch completion order: three sources finishing in opposite orders
 	delays := [][]time.Duration{{0, 15 * time.Millisecond, 30 * time.Millisecond}, {30 * time.Millisecond, 15 * time.Millisecond, 0}}
 	for _, f := range [][]string{{"-proto"}, {"-raw"}, {"-top"}} {
